@@ -411,5 +411,26 @@ class Universe:
                     if d in origins.FRESH_BUILDERS:
                         continue
                 fresh = False
-            self._summ[fi.key] = {'returns_fresh': fresh}
+            # returns_global: every return expression is (a choice between)
+            # module-level objects, e.g. operator.floordiv
+            glob = set()
+            for r in rets:
+                leaves = [r.value]
+                while leaves and glob is not None:
+                    e = leaves.pop()
+                    if isinstance(e, ast.IfExp):
+                        leaves += [e.body, e.orelse]
+                        continue
+                    d = None
+                    if isinstance(e, (ast.Name, ast.Attribute)):
+                        d = self.repo.resolve(fi.module, e,
+                                              model.scope_locals(fi))
+                    if d is None:
+                        glob = None
+                    else:
+                        glob.add(d)
+                if glob is None:
+                    break
+            self._summ[fi.key] = {'returns_fresh': fresh,
+                                  'returns_global': glob or None}
         return self._summ
